@@ -225,8 +225,10 @@ theorem keeps_setBarrier {q s s'} (h : setBarrier q s = .ok s') : Keeps s s' := 
   split at h
   · cases h
   · split at h
-    · cases h
-    · exact (keeps_addColumn s).trans (keeps_barrierLoop h)
+    · cases h; exact Keeps.refl s
+    · split at h
+      · cases h
+      · exact (keeps_addColumn s).trans (keeps_barrierLoop h)
 
 theorem keeps_controlled (s : St) (b : Bool) : Keeps s { s with controlled := b } :=
   keeps_of_fields rfl rfl rfl rfl
@@ -353,11 +355,9 @@ theorem keeps_opLatex {nq : Nat} {op : Op} {s s' : St} (h : opLatex nq op s = .o
   | reset q => exact keeps_setField h
   | resetAll =>
     simp only [opLatex] at h
-    split at h
-    · cases h
-    · obtain ⟨s1, h1, h⟩ := Res.bind_eq_ok.mp h
-      obtain ⟨s2, h2, h⟩ := Res.bind_eq_ok.mp h
-      exact ((keeps_startRangeOp h1).trans (keeps_resetLoop h2)).trans (keeps_endRangeOp h)
+    obtain ⟨s1, h1, h⟩ := Res.bind_eq_ok.mp h
+    obtain ⟨s2, h2, h⟩ := Res.bind_eq_ok.mp h
+    exact ((keeps_startRangeOp h1).trans (keeps_resetLoop h2)).trans (keeps_endRangeOp h)
   | measure q c b => exact keeps_setMeasurement h
   | measureAll cbits b => exact keeps_measureAllLoop h
   | peek q c b => simp [opLatex] at h
